@@ -86,6 +86,23 @@ class Call:
         return (self.status, tuple(tuple(h) for h in self.headers or ()), self.body)
 
 
+class FileWrapper:
+    """what a server offers as environ['wsgi.file_wrapper'] (like wsgiref.util.FileWrapper): it sends the file-like
+    object from its current position to its END in blocks of blksize"""
+
+    def __init__(self, filelike, blksize=8192):
+        self.filelike, self.blksize = filelike, blksize
+        if hasattr(filelike, 'close'):
+            self.close = filelike.close
+
+    def __iter__(self):
+        while True:
+            d = self.filelike.read(self.blksize)
+            if not d:
+                return
+            yield d
+
+
 SERVER_MARK = 'X-Served-By'
 
 
